@@ -50,7 +50,8 @@ def run_cut(case, chooser):
     skw = dict(corpus.SERVER_KW)
     skw.update(variant.get("server_kwargs", {}))
     rig = Rig(chooser=chooser, n_sessions=n, tree=corpus.TREE, window=case.get("window", 1), spy=spy,
-              server_kwargs=skw, users=_slow_users if variant.get("slow_um") else None, **BACKENDS[case["backend"]])
+              server_kwargs=skw, users=_slow_users if variant.get("slow_um") else None,
+              via_run=case["cut"] == "cancel-run", **BACKENDS[case["backend"]])
     problems = []
     try:
         w = rig.world
@@ -71,6 +72,14 @@ def run_cut(case, chooser):
         if case.get("variant") == "throttled" and kind != "close":
             grace = 12
 
+        async def closing():
+            await rig.server.close()
+            # what is still open at the very moment close() returns (not one loop turn later)
+            state["at_return"] = {
+                "listeners": [l.port for l in w.net.all_listeners if not l.closed and l.owner == "server"],
+                "sockets": [x.name for x in ledger.server_side_open(w)],
+            }
+
         def do_cut():
             state["cut"] = True
             chooser.active = True
@@ -85,7 +94,11 @@ def run_cut(case, chooser):
             elif kind == "rst":
                 rig.sessions[0].peer.vanish(reset=True)
             elif kind == "close":
-                state["close_task"] = w.loop.create_task(rig.server.close())
+                state["close_task"] = w.loop.create_task(closing())
+            elif kind == "cancel-run":
+                # the server was started with Server.run(): cancelling that call is how it is shut down
+                rig.run_task.cancel()
+                state["close_task"] = rig.run_task
             else:
                 # server.close() while another client is just connecting (handshake finished before / attempted after)
                 def late_connect():
@@ -95,7 +108,7 @@ def run_cut(case, chooser):
                         state["late"] = None
                 if kind == "connect+close":
                     late_connect()
-                state["close_task"] = w.loop.create_task(rig.server.close())
+                state["close_task"] = w.loop.create_task(closing())
                 if kind == "close+connect":
                     late_connect()
 
@@ -142,7 +155,7 @@ def run_cut(case, chooser):
         if kind in ("fin", "rst", "ctl-fin"):
             s0 = rig.sessions[0]
             mine = [t for t in w.net.all_transports if t.side == "server" and t.peer is not None
-                    and t.peer.side == s0.peer.name and t.accepted and not t.closing and not t.closed]
+                    and t.peer.side == s0.peer.name and t.accepted and t.held()]
             if mine:
                 problems.append({"kind": "server-socket-of-ended-session-open",
                                  "which": ["control" if t.get_extra_info("sockname")[1] == 2121 else "data" for t in mine]})
@@ -181,8 +194,16 @@ def run_cut(case, chooser):
             t = state["close_task"]
             if not t.done():
                 problems.append({"kind": "server-close-did-not-complete", "why": "pending"})
+            elif kind == "cancel-run":
+                if not t.cancelled():
+                    problems.append({"kind": "server-close-did-not-complete", "why": "run() ended with " + repr(t.exception())})
             elif t.cancelled() or t.exception() is not None:
                 problems.append({"kind": "server-close-did-not-complete", "why": repr(t.exception())})
+            at = state.get("at_return")
+            if at and at["listeners"]:
+                problems.append({"kind": "listener-open-when-close-returns", "ports": at["listeners"]})
+            if at and at["sockets"]:
+                problems.append({"kind": "server-transport-open-when-close-returns", "names": at["sockets"]})
             left = ledger.tasks_alive(w)
             if left:
                 problems.append({"kind": "tasks-left", "names": sorted(ledger._tname(x) for x in left)})
@@ -276,6 +297,11 @@ def build_items(tier):
                         for cut in ("connect+close", "close+connect"):
                             case = {"script": script, "backend": backend, "cut": cut, "k": k, "j": 0, "second": False}
                             items.append((case, 1, kinds, 3000))
+                    if not second and (backend == "memory" or tier != "quick"):
+                        for j in (0, 1) if tier == "quick" else (0, 1, 2, 3):
+                            case = {"script": script, "backend": backend, "cut": "cancel-run", "k": k, "j": j,
+                                    "second": False}
+                            items.append((case, 1 if tier != "quick" else 0, kinds, 3000))
                     if not second:
                         for j in range(0, 4 if tier == "quick" else 7):
                             case = {"script": script, "backend": backend, "cut": "close", "k": k, "j": j,
